@@ -43,7 +43,8 @@ RULE = ("case = (generated scenario, kill point): scenarios are seeded chains of
         "overwrites, restore itself killed, second backup, no backup, re-run of the override flow, backup_db / override flow while a "
         "second process holds an older read snapshot (BEGIN + SELECT) on the database) x start state "
         "(cleanly closed / killed with un-checkpointed WAL / both) x clean close or not x database file name (pages.db; every 4th scenario "
-        "one of pages[en].db, p*g?s.db, 'a b.db', a non-ASCII name, a leading dash, a percent sign), random page sets (5 namespaces, "
+        "one of pages[en].db, p*g?s.db, 'a b.db', a non-ASCII name, a leading dash, a percent sign; a suffix-less name) x location "
+        "(every 10th scenario: database directly in the processes' temp dir), random page sets (5 namespaces, "
         "redirects, bodies 0-30 kB) + bulk-overwrite kinds (200-260 pages of 12-20 kB, all overwritten by ONE overwrite_pages() "
         "transaction of 3-6 MB, with / without a preceding backup; kill points SAMPLED: 14 spread over the overwrite loop, the 8 "
         "events around its commit line, every backup_db/close_db_conn line, every op boundary); kill points of the other kinds = EVERY traced source line of create_db, backup_db, close_db_conn, add_page, "
@@ -57,7 +58,12 @@ ASSUMPTIONS = [
     "observation hooks in the scenario process only (sqlite3.connect factory whose commit() writes begin/end marks, wrappers around "
     "Wtp.backup_db / Wtp.add_page): they tell the reference model which public-level step was in flight; the verifier process has no hooks",
     "after a restore that is not followed by a new backup both readings of the statement are accepted (restored snapshot or last committed content)",
-    "while backup_db() is in flight the original content, the original + its own commit, the new snapshot and a previous completed backup are all accepted",
+    "while a FIRST backup_db() is in flight the original content, the original + its own commit and the new snapshot are accepted; "
+    "while a later backup_db() is in flight (a completed backup exists) only that previous backup is accepted, and the new snapshot "
+    "only when the backup file the dead process left, opened on its own, already holds it (the new backup has been installed)",
+    "location dimension: in every 10th scenario TMPDIR of the victim and of the reopening processes is the directory of the "
+    "database (tempfile.tempdir set in those processes; the setup processes ran with another TMPDIR); a disagreement there is "
+    "re-run without that setting to name the cause",
     "a reader process a dead victim leaves behind ends by itself (pipe EOF); the verifier starts after it has gone, so "
     "the files it sees are stable",
     "delta-minimisation of a disagreement: post-kill files re-verified without -wal/-shm, without the backup file, renamed to "
@@ -167,7 +173,14 @@ def scenario(seed, si, kind, scale):
     name = S.DBNAMES[0]
     if si < 10000 and si % 4 == 1:
         name = S.DBNAMES[1 + (si // 4 + seed) % (len(S.DBNAMES) - 1)]
-    return S.gen_scenario(rng, kind, scale, name)
+    scn = S.gen_scenario(rng, kind, scale, name)
+    # every 10th regular scenario: TMPDIR of the victim and of the reopening processes is the directory of the database
+    # (the setup processes ran with another TMPDIR); half of them with a suffix-less database name
+    if si < 10000 and si % 10 == 3:
+        scn["tags"]["location"] = "tempdir"
+        if (si // 10 + seed) % 2 == 0 and scn["tags"]["dbname"] == "ordinary":
+            scn["dbname"], scn["tags"]["dbname"] = "pagesdb", "no-suffix"
+    return scn
 
 
 # ---------------------------------------------------------------------------
@@ -320,8 +333,14 @@ def new_case(tpl, base, name):
     return c
 
 
-def victim_child(tpl, case, kill_at, log, skip_reader=False):
+def scn_intmp(scn):
+    return scn["tags"].get("location") == "tempdir"
+
+
+def victim_child(tpl, case, kill_at, log, skip_reader=False, intmp=None):
     """Body of the forked victim.  Never returns normally to the caller's code path: os._exit."""
+    if scn_intmp(tpl.scn) if intmp is None else intmp:
+        tempfile.tempdir = os.path.join(case, "db")     # = TMPDIR pointing at the directory of the database
     db = os.path.join(case, "db", scn_dbname(tpl.scn))
     mark = S.Marker(os.path.join(case, "marks"))
     n = [0]
@@ -374,8 +393,9 @@ def scn_dbname(scn):
 
 
 def backup_name(dbname):
-    stem, dot, ext = dbname.rpartition(".")
-    return stem + "_backup" + dot + ext
+    from pathlib import PurePosixPath
+    p = PurePosixPath(dbname)
+    return p.with_stem(p.stem + "_backup").name
 
 
 def canon_name(fn, dbname):
@@ -412,8 +432,10 @@ def listing(dbdir, dbname=S.DBNAME):
 # ---------------------------------------------------------------------------
 # verifier: a fresh process opens the path with the real Wtp
 
-def _open_and_read(db, close):
+def _open_and_read(db, close, intmp=False):
     from wikitextprocessor import Wtp
+    if intmp:
+        tempfile.tempdir = os.path.dirname(db)
     a0 = anchors.snapshot()
     out = {}
     ctx = None
@@ -437,11 +459,11 @@ def _open_and_read(db, close):
     return out
 
 
-def verify(dbdir, close_first, obs=None, dbname=S.DBNAME):
+def verify(dbdir, close_first, obs=None, dbname=S.DBNAME, intmp=False):
     db = os.path.join(dbdir, dbname)
     res = []
     for i, close in ((1, close_first), (2, True)):
-        r, st = fork_collect(lambda: _open_and_read(db, close))
+        r, st = fork_collect(lambda: _open_and_read(db, close, intmp))
         if r is None:
             r = {"exc": ["verifier", "Died", "status %r" % (st,), "verifier-died"]}
         if r.get("hang"):
@@ -513,7 +535,7 @@ ABLATIONS = [("stale-wal", ["pages.db-wal", "pages.db-shm"]),
              ("backup-file", ["pages_backup.db"])]
 
 
-def diagnose(model, post, base, close_first, dbname=S.DBNAME, name_class=None):
+def diagnose(model, post, base, close_first, dbname=S.DBNAME, name_class=None, intmp=False):
     """Which single file class has to be there for the disagreement?  (mechanism tag, delta-minimisation)
     For a database with an unusual file name also: does the disagreement need that name (same files renamed to pages.db*)?"""
     needs = []
@@ -528,7 +550,7 @@ def diagnose(model, post, base, close_first, dbname=S.DBNAME, name_class=None):
                 os.unlink(os.path.join(d, real_name(f, dbname)))
             except FileNotFoundError:
                 pass
-        _, probs, _ = judge(model, verify(d, close_first, None, dbname))
+        _, probs, _ = judge(model, verify(d, close_first, None, dbname, intmp))
         shutil.rmtree(d, ignore_errors=True)
         if not probs:
             needs.append(name)
@@ -538,7 +560,7 @@ def diagnose(model, post, base, close_first, dbname=S.DBNAME, name_class=None):
         os.makedirs(d)
         for fn in os.listdir(post):
             shutil.copy(os.path.join(post, fn), os.path.join(d, canon_name(fn, dbname)))
-        _, probs, _ = judge(model, verify(d, close_first, None, S.DBNAME))
+        _, probs, _ = judge(model, verify(d, close_first, None, S.DBNAME, intmp))
         shutil.rmtree(d, ignore_errors=True)
         if not probs:
             needs.append("db-file-name(%s)" % name_class)
@@ -548,6 +570,11 @@ def diagnose(model, post, base, close_first, dbname=S.DBNAME, name_class=None):
 def make_sig(expect, probs, needs, files, model=None):
     rule, got, _ = probs[0]
     fam = "content" if "content" in rule else ("unreadable" if ("raises" in rule or "integrity" in rule) else rule)
+    if expect == "previous-backup" and "pages_backup.db" not in files:
+        # a completed backup existed, a second backup_db() was in flight, and the dead process left no backup file at all
+        return "restore-wrong|expect=previous-backup|cause=completed-backup-removed-before-its-replacement-is-installed"
+    if needs == ["db-directly-in-tempdir"]:
+        return "restore-wrong|expect=any|cause=db-directly-in-tempdir"
     if needs:
         cause = "+".join(needs)
         if "backup-file" in needs and expect == "original-or-snapshot":
@@ -630,28 +657,54 @@ class Monitor:
             post = os.path.join(case, "post")
             shutil.copytree(dbdir, post)
             expect, probs, _ = judge(model, verify(dbdir, True, None, dbn))
-            tpl.pre_sig = make_sig(expect, probs, diagnose(model, post, case, True, dbn, tpl.scn["tags"].get("dbname")), files) if probs else None
+            tpl.pre_sig = make_sig(expect, probs, diagnose(model, post, case, True, dbn, tpl.scn["tags"].get("dbname")), files, model) if probs else None
             shutil.rmtree(case, ignore_errors=True)
         return tpl.pre_sig
 
-    def rerun_without_reader(self, tpl, case, k, close_first):
-        """Delta: same scenario and kill point, the concurrent reader left out -> still a disagreement?"""
-        c2 = new_case(tpl, case, "noreader")
+    def installed_backup_holds(self, content, dbdir, dbn, scratch):
+        """Does the backup file the dead process left, opened on its own, hold `content`?  (= the new backup is installed)"""
+        b = os.path.join(dbdir, real_name("pages_backup.db", dbn))
+        if not os.path.exists(b):
+            return False
+        d = os.path.join(scratch, "inst")
+        shutil.rmtree(d, ignore_errors=True)
+        os.makedirs(d)
+        shutil.copy(b, os.path.join(d, S.DBNAME))
+        r, _ = fork_collect(lambda: _open_and_read(os.path.join(d, S.DBNAME), True))
+        shutil.rmtree(d, ignore_errors=True)
+        if not r or "rows" not in r or r.get("ic") != ["ok"]:
+            return False
+        c, dup = content_of(r["rows"])
+        return (not dup) and c == content
+
+    def finish_model(self, model, dbdir, dbn, scratch):
+        if model.in_backup and model.backup is not None:
+            model.new_backup_installed = self.installed_backup_holds(model.snap_cand, dbdir, dbn, scratch)
+            self.obs.count("second-backup.new-backup-%s-at-kill" % ("installed" if model.new_backup_installed else "not-installed"))
+
+    def rerun_variant(self, tpl, case, k, close_first, skip_reader=False, intmp=None):
+        """Delta: same scenario and kill point with one feature left out (the concurrent reader / TMPDIR = directory of
+        the database) -> still a disagreement?"""
+        c2 = new_case(tpl, case, "variant")
         pid = os.fork()
         if pid == 0:
             try:
-                victim_child(tpl, c2, k, None, skip_reader=True)
+                victim_child(tpl, c2, k, None, skip_reader=skip_reader, intmp=intmp)
             finally:
                 os._exit(0)
         wait_child(pid)
         marks = S.read_marks(os.path.join(c2, "marks"))
+        wait_gone([m[1] for m in marks if m[0] == "reader"])
         try:
             model, _, _ = self.model_for(tpl, marks)
         except ModelError:
             return True
-        _, probs, _ = judge(model, verify(os.path.join(c2, "db"), close_first, None, scn_dbname(tpl.scn)))
+        dbn = scn_dbname(tpl.scn)
+        self.finish_model(model, os.path.join(c2, "db"), dbn, c2)
+        _, probs, _ = judge(model, verify(os.path.join(c2, "db"), close_first, None, dbn,
+                                          scn_intmp(tpl.scn) if intmp is None else intmp))
         shutil.rmtree(c2, ignore_errors=True)
-        return bool(probs)
+        return bool(probs) or model.tainted is not None
 
     def evaluate(self, tpl, case, casekey, point_desc, close_first, expect_killed):
         """The victim is dead; verify what it left behind."""
@@ -710,7 +763,11 @@ class Monitor:
             return out
         post = os.path.join(case, "post")
         shutil.copytree(dbdir, post)
-        res = verify(dbdir, close_first, obs, dbn)
+        intmp = scn_intmp(tpl.scn)
+        if intmp:
+            obs.count("victim.db-directly-in-tempdir")
+        self.finish_model(model, post, dbn, case)
+        res = verify(dbdir, close_first, obs, dbn, intmp)
         expect, probs, label = judge(model, res, obs)
         obs.count("expect." + expect)
         if model.in_open:
@@ -730,11 +787,15 @@ class Monitor:
         obs.count("verifier.first-open-%s" % ("closes" if close_first else "exits-without-close"))
         obs.maxi("rows_visible", len(res[0].get("rows", ())))
         if probs:
-            needs = diagnose(model, post, case, close_first, dbn, tpl.scn["tags"].get("dbname"))
+            needs = diagnose(model, post, case, close_first, dbn, tpl.scn["tags"].get("dbname"), intmp)
             if readers and casekey.get("mode") == "line":
-                if not self.rerun_without_reader(tpl, case, casekey.get("k") or -1, close_first):
+                if not self.rerun_variant(tpl, case, casekey.get("k") or -1, close_first, skip_reader=True):
                     # the reader is what it takes; whichever file then carries the wrong content is secondary
                     needs = ["concurrent-read-snapshot"]
+            if intmp and casekey.get("mode") == "line":
+                if not self.rerun_variant(tpl, case, casekey.get("k") or -1, close_first, intmp=False):
+                    # the same steps on the same files are fine when TMPDIR does not point at the database's directory
+                    needs = ["db-directly-in-tempdir"]
             sig = make_sig(expect, probs, needs, files, model)
             msg = "%s; kill point %s; files at kill %s; rules: %s" % (
                 probs[0][2], point_desc, json.dumps(files), ", ".join(sorted({p[0] + "/" + p[1] for p in probs})))
@@ -891,7 +952,8 @@ class Monitor:
         case = self.prep_strace_case(tpl, sdir, "srec")
         out = os.path.join(case, "strace.out")
         p = subprocess.run(self.strace_cmd(case, ["-o", out, "-e", "trace=" + ",".join(SYSCALLS)]),
-                           stdout=subprocess.DEVNULL, stderr=subprocess.PIPE, timeout=300, cwd="/verif")
+                           stdout=subprocess.DEVNULL, stderr=subprocess.PIPE, timeout=300, cwd="/verif",
+                           env=(dict(os.environ, TMPDIR=os.path.join(case, "db")) if scn_intmp(tpl.scn) else None))
         counts = {}
         try:
             with open(out, errors="replace") as f:
@@ -921,7 +983,8 @@ class Monitor:
             case = self.prep_strace_case(tpl, sdir, "x%s%d" % (sc, k))
             p = subprocess.run(self.strace_cmd(case, ["-o", "/dev/null", "-e", "trace=" + sc,
                                                       "-e", "inject=%s:signal=SIGKILL:when=%d" % (sc, k)]),
-                               stdout=subprocess.DEVNULL, stderr=subprocess.PIPE, timeout=300, cwd="/verif")
+                               stdout=subprocess.DEVNULL, stderr=subprocess.PIPE, timeout=300, cwd="/verif",
+                               env=(dict(os.environ, TMPDIR=os.path.join(case, "db")) if scn_intmp(tpl.scn) else None))
             ck = {"seed": seed, "tier": tier, "si": si, "kind": kind, "scale": scale, "mode": "syscall", "syscall": sc, "k": k}
             killed = p.returncode in (-9, 137)
             if not killed:
